@@ -779,6 +779,13 @@ class EphemeralAuthenticatedOnionService(object):
         """
         IAuthenticatedOnionClients API
         """
+        if not isinstance(self._private_key, str):
+            # the key was discarded (or Tor hasn't told us yet): for an
+            # ephemeral service the ServiceID Tor returned *is* the
+            # permanent id (basic-auth clients all share it)
+            if self._hostname is None:
+                return None
+            return self._hostname[:-len('.onion')]
         assert '\n' not in self._private_key
         # why are we sometimes putting e.g. "RSA1024:xxxx" and
         # sometimes not? Should be one or the other
